@@ -652,7 +652,31 @@ def _flip_not(t):
     # a != b is exactly !(a == b) (also for NaN)
     if _is(t, "if") and len(t) == 4 and t[3] != ("unit",) and _is(t[1], "op") and len(t[1]) == 5 and t[1][1] == "ne":
         t = ("if", ("op", "eq") + t[1][2:], t[3], t[2])
+    # if c1 {A} else if c2 {B} else {C}  ==  if c2 {B} else if c1 {A} else {C}   when c1 and c2 compare the same two plain operands
+    # and cannot both hold (== with > or <, > with <; true for NaN as well: then neither holds): canonical order > , < , ==
+    if _is(t, "if") and len(t) == 4 and _is(t[3], "if") and len(t[3]) == 4 and _is(t[1], "op") and _is(t[3][1], "op") and len(t[1]) == 5 and len(t[3][1]) == 5 \
+            and t[1][2:] == t[3][1][2:] and t[1][1] in _EXCL_RANK and t[3][1][1] in _EXCL_RANK and t[1][1] != t[3][1][1] \
+            and _EXCL_RANK[t[1][1]] > _EXCL_RANK[t[3][1][1]] and all(_plain_operand(o) for o in t[1][3:]):
+        t = ("if", t[3][1], t[3][2], ("if", t[1], t[2], t[3][3]))
     return t
+
+
+def iflet_some_match(t):
+    """if let Some(p) = x {A} else {B}  ==  match x {Some(p) => A, None => B}   (value position, both branches present)"""
+    if not isinstance(t, tuple):
+        return t
+    t = tuple(iflet_some_match(x) for x in t)
+    if _is(t, "if") and len(t) == 4 and t[3] != ("unit",) and _is(t[1], "iflet") and len(t[1]) == 3 and _is(t[1][1], "pvar") and t[1][1][1] == "Option::Some":
+        return ("match", t[1][2], (t[1][1], t[2]), (("pvar", "Option::None"), t[3]))
+    return t
+
+
+_INT_TYS = ("i8", "i16", "i32", "i64", "i128", "isize", "u8", "u16", "u32", "u64", "u128", "usize")
+_EXCL_RANK = {"gt": 0, "lt": 1, "eq": 2}
+
+
+def _plain_operand(o):
+    return isinstance(o, tuple) and (o[0] in ("var", "param", "lit", "ev") or (o[0] == "field" and _plain_operand(o[1])) or (o[0] == "un" and o[1] == "neg" and _plain_operand(o[-1])))
 
 
 def normalise(t):
@@ -726,6 +750,39 @@ def normalise(t):
         _FOLD_CTR[0] += 1
         m, i_ = "m%d" % _FOLD_CTR[0], "b%d" % _FOLD_CTR[0]
         return normalise(("seq", ("let", m, ("lit", "1", ty)), ("for", ("bind", i_), t[2], ("setop", "mul", ty, ("var", m), ("var", i_))), ("var", m)))
+    if h == "call" and isinstance(t[1], str) and len(t) == 4 and re.match(r"^<Option<&?char> as cmp::PartialEq>::eq$", t[1]):
+        # opt == Some('c')  ==  matches!(opt, Some('c'))      (either side)
+        for a, b in ((t[2], t[3]), (t[3], t[2])):
+            if _is(b, "Some") and len(b) == 2 and _is(b[1], "char"):
+                return ("iflet", ("pvar", "Option::Some", b[1]), a)
+            if b == ("None",):
+                return ("iflet", ("pvar", "Option::None"), a)
+    if h == "call" and isinstance(t[1], str) and len(t) == 4 and re.search(r"(^|[.:])eq$", t[1]) and _is(t[2], "call") and t[2][1] == "Chars.take" \
+            and _is(t[3], "call") and len(t[3]) == 3 and t[3][1] == "str::chars" and _is(t[3][2], "str"):
+        # it.take(n).eq("lit".chars())  ==  it.take(n).collect::<String>() == "lit"
+        return normalise(("call", "<String as cmp::PartialEq>::eq", ("call", "Iterator::collect::<String>", t[2]), t[3][2]))
+    # ---- a literal table searched with `position`, and the std functions folded on literals
+    if h == "call" and isinstance(t[1], str) and len(t) == 4 and re.search(r"Iterator(>)?::position$", t[1]) and _is(t[2], "call") and len(t[2]) == 3 and t[2][1] == "iter" \
+            and _is(t[2][2], "array") and len(t[2][2]) > 1 and all(_is(a, "char") for a in t[2][2][1:]) and len(set(t[2][2][1:])) == len(t[2][2]) - 1 \
+            and _is(t[3], "lambda") and len(t[3]) == 3 and len(t[3][1]) == 1 and _is(t[3][1][0], "bind"):
+        # [c0, c1, ..].iter().position(|x| x == p)   ==   match p { c0 => Some(0), c1 => Some(1), .., _ => None }     (distinct literals)
+        b, body, p_ = ("var", t[3][1][0][1]), t[3][2], None
+        if _is(body, "call") and len(body) == 4 and isinstance(body[1], str) and re.match(r"^<&*char as cmp::PartialEq(<&*char>)?>::eq$", body[1]):
+            p_ = body[3] if body[2] == b else (body[2] if body[3] == b else None)
+        elif _is(body, "op") and len(body) == 5 and body[1] == "eq" and body[2] == "char":
+            p_ = body[4] if body[3] == b else (body[3] if body[4] == b else None)
+        if p_ is not None and not any(y == b for y in _subterms(p_)):
+            return normalise(("match", p_) + tuple((a, ("Some", ("lit", str(i), "usize"))) for i, a in enumerate(t[2][2][1:])) + (("_", ("None",)),))
+    if h == "cast" and len(t) == 4 and _is(t[3], "lit") and len(t[3]) == 3 and t[1] in _INT_TYS and t[2] in _INT_TYS and str(t[3][1]).isdigit() and int(t[3][1]) < 128:
+        return ("lit", t[3][1], t[2])          # a small non-negative literal is the same number in every integer type
+    if h == "call" and t[1] == "char::from_digit" and len(t) == 4 and _is(t[2], "lit") and t[3] == ("lit", "10", "u32") and str(t[2][1]).isdigit():
+        return ("Some", ("char", t[2][1])) if int(t[2][1]) < 10 else ("None",)
+    if (h == "cast" and len(t) == 4 and _is(t[3], "match")) or (h == "call" and isinstance(t[1], str) and len(t) >= 3 and _is(t[2], "match") and all(_is(a, "lit") for a in t[3:]) and re.match(r"^(char|u32|u8|usize|i64|f64)::\w+$", t[1])):
+        # f(match s {p => lit, .., q => return e})  ==  match s {p => f(lit), .., q => return e}     (table look-ups)
+        mt = t[3] if h == "cast" else t[2]
+        if len(mt) > 2 and all(len(a) == 2 and (_is(a[1], "lit") or _is(a[1], "return")) for a in mt[2:]) and any(_is(a[1], "lit") for a in mt[2:]):
+            wrap = (lambda v: ("cast", t[1], t[2], v)) if h == "cast" else (lambda v: ("call", t[1], v) + t[3:])
+            return normalise(("match", mt[1]) + tuple((a[0], a[1] if _is(a[1], "return") else wrap(a[1])) for a in mt[2:]))
     if h == "call" and t[1] == "bool::then" and len(t) == 4 and _is(t[3], "lambda") and len(t[3]) == 3 and not t[3][1]:
         # c.then(|| x)  ==  if c { Some(x) } else { None }
         return normalise(("if", t[2], ("Some", t[3][2]), ("None",)))
@@ -747,6 +804,8 @@ def normalise(t):
                 return ("call", "iter", t[2])
             if name == "iter" and _is(t[2], "call") and len(t[2]) == 3 and t[2][1] == "iter":
                 return t[2]
+            if name == "iter" and _is(t[2], "call") and len(t[2]) == 3 and isinstance(t[2][1], str) and re.search(r"(^|::)(to_vec|to_owned)$", t[2][1]):
+                return normalise(("call", "iter", t[2][2]))      # iterating over a copy of the collection (like .clone(), which the translator drops)
             if re.search(r"iter::Iterator>::(cloned|copied)$", name) or name in ("Iterator::cloned", "Iterator::copied", "iter::Iterator::cloned", "iter::Iterator::copied"):
                 return t[2]
             if name in ("Vec::with_capacity",):
@@ -814,13 +873,29 @@ def normalise(t):
         # let x = { a; b; v }   ==  a; b; let x = v
         flat2 = []
         for x in items:
-            if _is(x, "let") and len(x) == 3 and _is(x[2], "seq") and len(x[2]) > 2:
+            if (_is(x, "let") or _is(x, "letpat")) and len(x) == 3 and _is(x[2], "seq") and len(x[2]) > 2:
                 flat2.extend(x[2][1:-1])
-                flat2.append(("let", x[1], x[2][-1]))
+                flat2.append((x[0], x[1], x[2][-1]))
             else:
                 flat2.append(x)
         if flat2 != items:
             return normalise(("seq",) + tuple(flat2))
+        # let v = matches!(s, P); if <cond over v> ..   ==   if <cond over matches!(s, P)> ..   (v used once, in the condition of the
+        # very next statement, which calls nothing before reading it)
+        for i, x in enumerate(items[:-1]):
+            if _is(x, "let") and len(x) == 3 and isinstance(x[1], str) and _is(x[2], "match") and len(x[2]) > 2 \
+                    and all(len(a) == 2 and _is(a[1], "lit") and len(a[1]) == 3 and a[1][2] == "bool" for a in x[2][2:]):
+                nx = items[i + 1]
+                uses = sum(1 for r_ in items[i + 1:] for y in _subterms(r_) if y == ("var", x[1]))
+                if _is(nx, "if") and len(nx) == 4 and uses == 1 and any(y == ("var", x[1]) for y in _subterms(nx[1])) and not any(is_effect_call(y) for y in _subterms(nx[1])):
+                    def sbm(z, a=x[1], val=x[2]):
+                        if isinstance(z, tuple):
+                            if z == ("var", a):
+                                return val
+                            return tuple(sbm(w) for w in z)
+                        return z
+                    new_items = list(items[:i]) + [("if", sbm(nx[1]), nx[2], nx[3])] + list(items[i + 2:])
+                    return normalise(("seq",) + tuple(new_items)) if len(new_items) > 1 else normalise(new_items[0])
         # let v = match self.current_token {p => a, ..}; rest   ==   match self.current_token {p => {let v = a; rest}, ..}
         # (commuting conversion, for a short continuation after the token dispatch; arms that return keep their body)
         for i, x in enumerate(items):
@@ -947,6 +1022,26 @@ def normalise(t):
             return normalise(("match", t[2][1]) + tuple((a[0], ("set", t[1], a[1])) for a in t[2][2:]))
         if _is(t[2], "if") and len(t[2]) == 4 and t[2][3] != ("unit",):
             return normalise(("if", t[2][1], ("set", t[1], t[2][2]), ("set", t[1], t[2][3])))
+    if h == "match" and len(t) == 4 and len(t[2]) == 2 and len(t[3]) == 2 and t[3][0] == "_" and t[2][1] == ("lit", "true", "bool") and t[3][1] == ("lit", "false", "bool"):
+        # matches!(c, '0'..='9' | '.')   ==   c.is_ascii_digit() || c == '.'        (character tests)
+        alts = t[2][0][1:] if _is(t[2][0], "por") else (t[2][0],)
+        tests = []
+        for a in alts:
+            if _is(a, "prange") and len(a) == 5 and a[4] == "char" and (a[1], a[2], a[3]) in (("48", "57", "Included"), (48, 57, "Included")):
+                tests.append(("call", "char::is_ascii_digit", t[1]))
+            elif _is(a, "char") and len(a) == 2:
+                tests.append(("op", "eq", "char", t[1], a))
+            else:
+                tests = None
+                break
+        if tests:
+            c = tests[0]
+            for x in tests[1:]:
+                c = ("op", "or", "bool", c, x)
+            return c
+        # matches!(opt, Some(p))  ==  `if let Some(p) = opt` as a condition
+        if _is(t[2][0], "pvar") and t[2][0][1] in ("Option::Some", "Option::None"):
+            return ("iflet", t[2][0], t[1])
     if h == "match" and len(t) == 4 and len(t[2]) == 3 and len(t[3]) == 2 and t[3][0] == "_":
         # match s {P if g => a, _ => b}   ==  match s {P => if g {a} else {b}, _ => b}
         t = ("match", t[1], (t[2][0], normalise(("if", t[2][1], t[2][2], t[3][1]))), t[3])
